@@ -39,8 +39,32 @@ if REPO not in sys.path:
 import aiuti  # noqa: E402,F401  (import side effects happen here, not on a symbolic path)
 
 
+class StepBound(BaseException):
+    """Raised by tick(): a loop of the code under analysis iterated FUEL_LIMIT times within one
+    task step (no suspension in between) - a busy loop / livelock."""
+
+
+FUEL = [0]
+FUEL_LIMIT = 20000
+
+
+def tick():
+    """Inserted by the loader at the top of every loop body of the loaded repository module."""
+    FUEL[0] += 1
+    if FUEL[0] > FUEL_LIMIT:
+        FUEL[0] = 0
+        raise StepBound('loop iterated %d times without suspending' % FUEL_LIMIT)
+
+
+def refuel():
+    FUEL[0] = 0
+
+
 def is_engine_exc(e: BaseException) -> bool:
-    """True for CrossHair's path-steering exceptions (BaseException subclasses)."""
+    """True for CrossHair's path-steering exceptions (BaseException subclasses) and for the
+    harness's own StepBound: both must pass through every catch-all untouched."""
+    if isinstance(e, StepBound):
+        return True
     if ENGINE_EXC and isinstance(e, ENGINE_EXC):
         return True
     return type(e).__module__.startswith('crosshair')
